@@ -1,5 +1,8 @@
 (* Extract/E_C02.v — wire entry for C02 (glue, not trusted for theorems).
-   case   = [ver; how; lo; lu; ro; ru; lkeys; rkeys; lcols; rcols; lsuf; rsuf; cs; mcs; vf; ccs]
+   case   = [ver; how; lo; lu; ro; ru; lkeys; rkeys; lcols; rcols; lsuf; rsuf; cs; mcs; vf; ccs; kvs]
+            kvs  = per key column: 1 when the code under test casts both key columns of that pair to float64
+                   before joining (pandas path, integer with float: Model/KeyView.v), 0 otherwise.  The MODEL
+                   joins on the viewed keys; the SPECIFICATION always joins on the keys themselves.
             ver 0 = MFixed (repaired dataframe.py), 1 = MOrig (as found)
             how 0 left, 1 right, 2 inner, 3 outer; lkeys/rkeys = list of key columns (list of ints)
             column = [name; 0; zfill; empty; data]  fixed width (data = list of byte/one-element lists)
@@ -10,7 +13,7 @@
    pandas.merge (the Section variable of the unordered path) is instantiated with the relational
    join of the specification; the harness compares unordered-path results up to row order. *)
 From Coq Require Import ZArith List Bool.
-From EV Require Import Res Arr Val Join MapStream Merge MergeSpec.
+From EV Require Import Res Arr Val Join MapStream Merge MergeSpec KeyView.
 Import ListNotations.
 Open Scope Z_scope.
 
@@ -39,18 +42,19 @@ Definition enc_frame (f:frame) : val := VL (map enc_col f).
 
 Definition entry_C02 (v:val) : val :=
   match v with
-  | VL [VZ ver; VZ how; lo; lu; ro; ru; lkeys; rkeys; lcols; rcols; lsuf; rsuf; VZ cs; VZ mcs; VZ vf; VZ ccs] =>
-    match as_bool lo, as_bool lu, as_bool ro, as_bool ru with
-    | Some lo, Some lu, Some ro, Some ru =>
+  | VL [VZ ver; VZ how; lo; lu; ro; ru; lkeys; rkeys; lcols; rcols; lsuf; rsuf; VZ cs; VZ mcs; VZ vf; VZ ccs; kvs] =>
+    match as_bool lo, as_bool lu, as_bool ro, as_bool ru, as_list kvs with
+    | Some lo, Some lu, Some ro, Some ru, Some kvs =>
       match as_list2 lkeys, as_list2 rkeys, dec_frame lcols, dec_frame rcols, as_list lsuf, as_list rsuf with
       | Some lkeys, Some rkeys, Some lcols, Some rcols, Some lsuf, Some rsuf =>
-        let a := mk_margs (if ver =? 1 then MOrig else MFixed) how lo lu ro ru lkeys rkeys lcols rcols
+        let a := mk_margs (if ver =? 1 then MOrig else MFixed) how lo lu ro ru
+                          (view_keys kvs lkeys) (view_keys kvs rkeys) lcols rcols
                           lsuf rsuf cs mcs vf ccs in
         VL [ of_res (fun p => VL [vbool (fst p); enc_frame (snd p)]) (merge join_pairs a);
              enc_frame (merge_spec how lkeys rkeys lcols rcols lsuf rsuf) ]
       | _, _, _, _, _, _ => vbad
       end
-    | _, _, _, _ => vbad
+    | _, _, _, _, _ => vbad
     end
   | _ => vbad
   end.
